@@ -120,6 +120,7 @@ def build_context(IR, parseExpression):
 
                     if len(entity["gf"]) > 0:
                         ent["points"] = entity["gf"]
+                        ent["gf_type"] = entity.get("gf_type", "continuous")
                         context["gfs"] += [ent]
 
                     else:
